@@ -326,6 +326,20 @@ func (c *Ctx) Fail(sig string, format string, args ...any) bool {
 	return true
 }
 
+// FailExit reports a violation from which the process cannot carry on (the call under test has not come back and
+// cannot be stopped): the case is saved, the line is printed and the process ends. No shrinking.
+func (c *Ctx) FailExit(sig string, format string, args ...any) {
+	p := c.P
+	msg := fmt.Sprintf(format, args...)
+	path := c.saveReplay(sig, msg)
+	p.mu.Lock()
+	p.viol++
+	p.mu.Unlock()
+	fmt.Printf("VIOLATION-CANDIDATE property=%s test=%s sig=%s replay=%s\n%s\n", p.ID, c.def, sig, path, msg)
+	os.Stdout.Sync()
+	os.Exit(1)
+}
+
 func (c *Ctx) saveReplay(sig, msg string) string {
 	if c.Mode == "replay" {
 		return os.Getenv("VERIF_REPLAY")
